@@ -18,8 +18,25 @@
 
    History variables of the property monitor (they never influence the handler):
      lastFetched  the assignment returned by the most recent successful fetch, per key
-     mvalid       keys whose last required fetch succeeded with no invalidating event since
-                  (DESIGN section 5 C16 "storeValid": reorg, indices change, failed fetch, end of epoch)
+     mvalid       "storeValid" (DESIGN section 5 C16): keys that were fetched successfully and whose fetched
+                  duties the pinned handler has not deliberately dropped since.  A key enters on a successful
+                  fetch and leaves ONLY where the pinned handler resets the store before a re-fetch succeeds:
+
+                    event            attester                      proposer            sync committee
+                    reorg Previous   e; e+1 if ShouldFetchNext     -  (ignored)        -  (ignored)
+                    reorg Current    e+1 if ShouldFetchNext        e                   p+1 if ShouldFetchNextPeriod
+                    indices change   e+1 at once if ShouldFetch-   -  (old duties      -  (old duties kept until a
+                                     Next; e at the NEXT tick,        kept until a        re-fetch succeeds)
+                                     after its execution (the         re-fetch
+                                     tick executes, resets,           succeeds)
+                                     then re-fetches)
+                    failed fetch     -                             -                   -     (no handler touches the
+                                                                                             store on a failed fetch)
+                    last tick of key e / p leaves (nothing of it is due any more)
+
+                  While a key is in mvalid every duty of lastFetched that is due at a tick must be dispatched in
+                  that tick, unless a successful fetch of the same key in the same tick, not preceded by a dispatch,
+                  returned an assignment without it (the handler fetched first and the assignment changed).
      hiDisp       highest slot of any dispatched duty
      viol         names of the monitors that tripped (always {} in the faithful spec)
 
@@ -135,7 +152,8 @@ FetchKey(h, k, ok) ==
                          !.lf = ResetK(h.lf, k) \cup Returned(k, active),
                          !.mv = h.mv \cup {k},
                          !.log = Append(h.log, <<k, TRUE>>)]
-    ELSE [h EXCEPT !.mv = h.mv \ {k}, !.log = Append(h.log, <<k, FALSE>>), !.fails = h.fails + 1]
+    ELSE [h EXCEPT !.st = IF Weaken = "resetBeforeFetch" THEN ResetK(h.st, k) ELSE h.st,   \* pinned: untouched
+                   !.log = Append(h.log, <<k, FALSE>>), !.fails = h.fails + 1]
 
 (* processFetching of the attester and sync-committee handlers *)
 ProcFetch(h, k, s, okC, okN) ==
@@ -148,14 +166,17 @@ ProcFetch(h, k, s, okC, okN) ==
 (* the monitors, evaluated on one tick: disp was dispatched while lfExec was the fetched assignment *)
 TickViol(s, cur, h, disp, lfExec) ==
     LET k == KeyOf(s)
-        fetched == {h.log[i][1] : i \in 1..Len(h.log)}
         due == DueAt(lastFetched, k, s)
+        refetched == \E i \in 1..Len(h.log) : h.log[i] = <<k, TRUE>>
+        \* the fetch precedes the dispatch records exactly on the fetchFirst branch; without dispatch records the
+        \* order is not observable and the exemption applies as well
+        exempt(d) == refetched /\ Entry(d) \notin h.lf /\ (fetchFirst \/ disp = {})
     IN {x \in {"wrong-slot"} : \E d \in disp : d[1] # s}
        \cup {x \in {"twice"} : \E d \in disp : d[1] <= hiDisp}
        \cup {x \in {"unassigned"} : \E d \in disp : Entry(d) \notin lfExec}
        \cup {x \in {"window"} : \E d \in disp : ~Allowed(cur, d[1])}
-       \cup {x \in {"missed"} : /\ Strict(cur, s) /\ k \in mvalid /\ k \notin fetched
-                                /\ \E d \in due : d \notin disp}
+       \cup {x \in {"missed"} : /\ Strict(cur, s) /\ k \in mvalid
+                                /\ \E d \in due : d \notin disp /\ ~exempt(d)}
 
 Commit(s, lag, okC, okN, h, cand, lfExec, ff, ic, fn, st, mv) ==
     LET k == KeyOf(s)
@@ -180,8 +201,9 @@ Commit(s, lag, okC, okN, h, cand, lfExec, ff, ic, fn, st, mv) ==
 
 AttTick(s, lag, okC, okN) ==
     LET e == EpochOf(s)
-        hA == ProcFetch(H0, e, s, okC, okN)
-        hB0 == IF idxChanged /\ Weaken # "noResetOnIndices" THEN [H0 EXCEPT !.st = ResetK(@, e)] ELSE H0
+        HM == IF idxChanged THEN [H0 EXCEPT !.mv = @ \ {e}] ELSE H0      \* monitor: see the table at mvalid
+        hA == ProcFetch(HM, e, s, okC, okN)
+        hB0 == IF idxChanged /\ Weaken # "noResetOnIndices" THEN [HM EXCEPT !.st = ResetK(@, e)] ELSE HM
         hB == ProcFetch(hB0, e, s, okC, okN)
         h == IF fetchFirst THEN hA ELSE hB
         cand == IF fetchFirst THEN DutiesAt(hA.st, e, s) ELSE DutiesAt(store, e, s)   \* processExecution's input
@@ -262,7 +284,7 @@ AttReorg(kind) ==
          /\ fetchFirst' = IF kind = "prev" THEN TRUE ELSE fetchFirst
          /\ fetchCur' = IF kind = "prev" THEN TRUE ELSE fetchCur
          /\ fetchNext' = IF sfn THEN TRUE ELSE fetchNext
-         /\ mvalid' = IF kind = "prev" THEN mvalid \ {e, e + 1} ELSE mvalid \ {e + 1}
+         /\ mvalid' = (mvalid \ (IF kind = "prev" THEN {e} ELSE {})) \ (IF sfn THEN {e + 1} ELSE {})
 
 PropReorg ==      \* only Current is acted upon
     LET e == EpochOf(slot) IN
@@ -279,7 +301,7 @@ SyncReorg ==      \* only Current is acted upon
          /\ ReorgCommon("cur", p + 1, c)
          /\ store' = IF sfn /\ Weaken # "noResetNextOnReorg" THEN ResetK(store, p + 1) ELSE store
          /\ fetchNext' = IF sfn THEN TRUE ELSE fetchNext
-         /\ mvalid' = mvalid \ {p + 1}
+         /\ mvalid' = mvalid \ (IF sfn THEN {p + 1} ELSE {})
          /\ UNCHANGED <<fetchFirst, fetchCur>>
 
 Reorg == /\ ~AssignPending /\ inited
@@ -294,7 +316,7 @@ IndicesChange ==
        \E na \in Actives :
          /\ active' = na
          /\ act' = [name |-> "IndicesChange", active |-> na]
-         /\ mvalid' = mvalid \ {k, k + 1}
+         /\ mvalid' = IF Role = "att" /\ ShouldFetchNext(slot) THEN mvalid \ {k + 1} ELSE mvalid
          /\ \/ /\ Role = "att"
                /\ idxChanged' = TRUE /\ fetchCur' = TRUE
                /\ fetchNext' = IF ShouldFetchNext(slot) THEN TRUE ELSE fetchNext
